@@ -116,6 +116,7 @@ pub fn encode_ty(reg: &Registry, ty: &Ty, v: &View, o: &EncOpts) -> Item {
             encode_type(reg, sch, x, &EncOpts { omit_top_index: omit, force_variant_index: None, ..*o })
         }
         (Ty::Tagged(n, t), x) => Item::tag(*n, encode_ty(reg, t, x, o)),
+        (Ty::Opaque(t), x) => encode_ty(reg, t, x, o),
         (Ty::Phantom, _) => Item::array(vec![]),
         (Ty::Tri, View::U(0)) => Item::undefined(),
         (Ty::Tri, View::U(1)) => Item::null(),
@@ -239,6 +240,7 @@ pub fn expected_after_decode(reg: &Registry, ty: &Ty, v: &View) -> View {
         (Ty::Map(k, t), View::Map(xs)) => View::Map(xs.iter().map(|(a, b)| (expected_after_decode(reg, k, a), expected_after_decode(reg, t, b))).collect()),
         (Ty::Named(n), x) => expected_type(reg, &reg[n], x),
         (Ty::Tagged(_, t), x) => expected_after_decode(reg, t, x),
+        (Ty::Opaque(t), x) => expected_after_decode(reg, t, x),
         (_, x) => x.clone(),
     }
 }
@@ -257,7 +259,7 @@ pub fn default_view(reg: &Registry, ty: &Ty) -> View {
         Ty::Vec(_) | Ty::Phantom => View::Seq(vec![]),
         Ty::Map(..) => View::Map(vec![]),
         Ty::Named(n) => panic!("no default for named type {} ({:?})", n, reg.get(n).map(|s| s.name)),
-        Ty::Tagged(_, t) => default_view(reg, t),
+        Ty::Tagged(_, t) | Ty::Opaque(t) => default_view(reg, t),
     }
 }
 
